@@ -123,7 +123,7 @@ func runS13(c *core.Ctx) {
 		return
 	}
 	a := newAsmCtx(p, "internal/encoder/x86", "Assembler")
-	neutral := map[string]bool{"save": true, "load": true, "save_c": true, "load_c": true, "save_callc": true, "load_callc": true, "call_go": true, "call_c": true, "call": true, "callc": true, "call_more_space": true, "call_encoder": true, "call_marshaler": true}
+	neutral := map[string]bool{"xsave": true, "xload": true, "save": true, "load": true, "save_c": true, "load_c": true, "save_callc": true, "load_callc": true, "call_go": true, "call_c": true, "call": true, "callc": true, "call_more_space": true, "call_encoder": true, "call_marshaler": true}
 	for _, fd := range sortedFuncDecls(a.methods()) {
 		if !strings.HasPrefix(fd.Name.Name, "_asm_OP_") {
 			continue
